@@ -235,3 +235,8 @@ Definition subset_case_ok (c : list nat * list (list nat) * list nat * list nat)
   let '(blk, sels, isrc, ishape) := c in
   let m := subset_sources blk sels in
   list_nat_eqb (data m) isrc && list_nat_eqb (shape m) ishape.
+
+(* ---- reindex_ cases (K2): (from_, to, values attached to from_, fill, what flox.core.reindex_ returned) ---- *)
+From Flox Require Import Reindex.
+Definition reindex_case_ok (c : list Z * list Z * list Z * Z * list Z) : bool :=
+  let '(from_, to, vals, fill, impl) := c in list_z_eqb (reindex from_ to fill vals) impl.
